@@ -848,6 +848,9 @@ def _balance_chunksizes(chunks: tuple[int, ...]) -> tuple[int, ...]:
         New chunks for Dask array with balanced sizes.
     """
     median_len = np.median(chunks).astype(int)
+    if median_len == 0:
+        # an empty dimension (or mostly zero-size chunks): nothing to balance
+        return chunks
     n_chunks = len(chunks)
     eps = median_len // 2
     if min(chunks) <= 0.5 * max(chunks):
